@@ -361,3 +361,71 @@ UNITS.append(Unit(
     contract='__CPROVER_requires(LK_PRE)\n__CPROVER_ensures(LK_POST(__CPROVER_return_value))\n__CPROVER_assigns()',
     prelude=[LKP], lower=LK_LOWER, no_flags=['--conversion-check'], replay=dict(prog='csr_find_sorted_last', args=[], lib=True),
     says='findEdgeSortedByDst(N1, N2) on a range sorted by destination: same answer as findEdge, and every destination read lies inside the destination array -- also when the partition point is edge_end(N1) and N1 is the last node with edges (slot numEdges does not exist); std::lower_bound = the standard\'s contract (trusted)'))
+
+# ---- in-place transpose (bounded stand-in) -------------------------------------------------------------------------------------------------
+# The whole body of LC_CSR_Graph::transpose, lowered tolerantly: every galois::do_all(iterate(a, b), [&](uint64_t i) {...}) becomes a loop
+# that runs the iterations in an ARBITRARY ORDER (a nondeterministic permutation of [a, b)), the __sync builtins are the plain
+# read-modify-writes (atomic at this granularity), the temporary LargeArrays are local arrays with arbitrary initial content.
+TPB = """
+struct CSR { uint32_t numNodes; uint64_t numEdges; uint64_t* edgeIndData; uint32_t* edgeDst; uint64_t* edgeData; };
+#define BN 3u
+/* BE = edge bound, from -DBE= */
+uint64_t IDXA[BN]; uint32_t DSTA[BE]; uint64_t DATA_[BE];
+uint64_t OIDX[BN]; uint32_t ODST[BE]; uint64_t ODAT[BE];
+struct CSR G;
+uint32_t nondet_u32(void); uint64_t nondet_u64(void);
+#define gv_sync_add_and_fetch(p, v) (*(p) += (v))
+#define gv_sync_fetch_and_add(p, v) ((*(p) += (v)) - (v))
+/* an arbitrary order of the iterations a, a+1, ..., b-1 (at most BE of them) */
+static inline void gv_make_perm(uint64_t* perm, uint64_t a, uint64_t b)
+{ for (unsigned i = 0; i < BE; ++i) { perm[i] = nondet_u64(); __CPROVER_assume(a + i >= b || (a <= perm[i] && perm[i] < b)); for (unsigned j = 0; j < i; ++j) __CPROVER_assume(a + i >= b || perm[i] != perm[j]); } }
+static inline uint32_t src_of(const uint64_t* idx, uint32_t nn, uint64_t e) { uint32_t s = 0; for (uint32_t n = 0; n < BN; ++n) if (n < nn && idx[n] <= e) s = n + 1; return s; }
+void CSR_transpose_b(struct CSR* self);
+"""
+DO_ALL = rx(r'galois::do_all\(\s*galois::iterate\(UINT64_C\((\d+)\), (\w+)\),\s*\[&\]\(uint64_t (\w+)\) \{(.*?)\},\s*galois::no_stats\(\), galois::loopname\("\w+"\)\);',
+            r'{ uint64_t gv_perm[BE]; const uint64_t gv_a = \1, gv_b = \2; __CPROVER_assert(gv_b <= gv_a || gv_b - gv_a <= BE, "bound"); gv_make_perm(gv_perm, gv_a, gv_b); for (uint64_t gv_i = gv_a; gv_i < gv_b; ++gv_i) { const uint64_t \3 = gv_perm[gv_i - gv_a]; \4 } }', 1, flags=re.S)
+for _be, _tier, _to in ((3, 'quick', 600), (4, 'thorough', 1800)):
+  UNITS.append(Unit(
+    name='CSR_transpose_small_e%d' % _be, kind='bounded', unwind=6, dfcc=False, defines=['BE=%du' % _be], tier=_tier, bound_desc='numNodes <= 3, numEdges <= %d (all such graphs' % _be + ', all destinations and edge data), every do_all in every ORDER of its iterations (iteration = atomic step), loops unwound completely',
+    src=CSR, within=WITHIN, anchor=r'void transpose\(const char\* regionName = NULL\)', proto='void CSR_transpose_b(struct CSR* self)', contract='',
+    prelude=[TPB],
+    lower=[rx(r'galois::StatTimer timer\([^;]*;\s*timer\.start\(\);', '', 1, 1), rx(r'timer\.stop\(\);', '', 1, 1),
+           rx(r'EdgeDst edgeDst_old;', 'uint32_t edgeDst_old[BE];', 1, 1), rx(r'EdgeData edgeData_new;', 'uint64_t edgeData_new[BE];', 1, 1),
+           rx(r'EdgeIndData edgeIndData_old;', 'uint64_t edgeIndData_old[BN];', 1, 1), rx(r'EdgeIndData edgeIndData_temp;', 'uint64_t edgeIndData_temp[BN];', 1, 1),
+           rx(r'if \(UseNumaAlloc\) \{.*?\n    \} else \{.*?\n    \}', '', 1, 1, flags=re.S),
+           DO_ALL,
+           rx(r'edgeDataCopy\((\w+), (\w+), (\w+), (\w+)\);', r'\1[\3] = \2[\4];      /* edgeDataCopy, non-void edge data */', 1),
+           rx(r'if \(EdgeData::has_value\)', 'if (1)', 0),
+           rx(r'__sync_add_and_fetch\(', 'gv_sync_add_and_fetch(', 0), rx(r'__sync_fetch_and_add\(', 'gv_sync_fetch_and_add(', 0),
+           rx(r'\bauto dst\b', 'uint32_t dst', 0), rx(r'\bauto e_new\b', 'uint64_t e_new', 0),
+           rx(r'(?<![\w.>])(edgeIndData|edgeDst|edgeData)\[', r'self->\1[', 1),
+           rx(r'UINT64_C\((\d+)\)', r'\1ull', 0),
+           members(['numNodes', 'numEdges'], minimum=1)],
+    harness="""
+  uint32_t nn = nondet_u32(); __CPROVER_assume(nn <= BN);
+  uint64_t ne = nondet_u64(); __CPROVER_assume(ne <= BE && (nn > 0 || ne == 0));
+  for (unsigned n = 0; n < BN; ++n) { IDXA[n] = nondet_u64(); if (n < nn) { __CPROVER_assume(IDXA[n] <= ne && (n == 0 || IDXA[n - 1] <= IDXA[n])); if (n == nn - 1) __CPROVER_assume(IDXA[n] == ne); } OIDX[n] = IDXA[n]; }
+  for (unsigned e = 0; e < BE; ++e) { DSTA[e] = nondet_u32(); DATA_[e] = nondet_u64(); if (e < ne) __CPROVER_assume(DSTA[e] < nn); ODST[e] = DSTA[e]; ODAT[e] = DATA_[e]; }
+  G.numNodes = nn; G.numEdges = ne; G.edgeIndData = IDXA; G.edgeDst = DSTA; G.edgeData = DATA_;
+  CSR_transpose_b(&G);
+  __CPROVER_assert(G.numNodes == nn && G.numEdges == ne, "node and edge counts unchanged");
+  for (unsigned n = 0; n < BN; ++n) if (n < nn) {
+    __CPROVER_assert(IDXA[n] <= ne && (n == 0 || IDXA[n - 1] <= IDXA[n]), "transposed index array: non-decreasing, inside the edge array");
+    if (n == nn - 1) __CPROVER_assert(IDXA[n] == ne, "transposed index array ends at numEdges");
+  }
+  /* the transposed graph presents exactly the reversed edge multiset, edge data included: every original edge (s -> d, w)
+     occurs as often as (d -> s, w) does afterwards (same total number of edges, so the multisets are equal) */
+  for (unsigned e0 = 0; e0 < BE; ++e0) if (e0 < ne) {
+    uint32_t s = src_of(OIDX, nn, e0), d = ODST[e0]; uint64_t w = ODAT[e0];
+    unsigned before = 0, after = 0;
+    for (unsigned e = 0; e < BE; ++e) if (e < ne) {
+      if (src_of(OIDX, nn, e) == s && ODST[e] == d && ODAT[e] == w) before++;
+      if (src_of(IDXA, nn, e) == d && DSTA[e] == s && DATA_[e] == w) after++;
+    }
+    __CPROVER_assert(before == after, "every edge (s -> d, data) of the input occurs equally often as (d -> s, data) in the transposed graph");
+  }
+""",
+    reach=True, no_flags=['--conversion-check'], timeout=_to,
+    inst='EdgeTy with has_value (edge data moved with the edge), no NUMA options; temporary arrays = locals with arbitrary initial content',
+    says='BOUNDED: in-place transpose of every graph with <= 3 nodes and <= %d edges,' % _be + ' the iterations of every parallel loop taken in every order: the index array is a valid CSR index again and the graph presents exactly the reversed edge multiset with each edge\'s data (the atomic counters hand every edge its own slot of its new source\'s range)',
+    trusted=['galois::do_all runs every iteration exactly once (C03/C04); iterations are interleaved at iteration granularity only (each shared access inside is one atomic read-modify-write or touches a slot no other iteration touches)', 'allocation block dropped; edgeDataCopy inlined by rule (non-void overload)']))
